@@ -53,6 +53,8 @@ def pz_coq(mode):
         return "(Some (MkPz None []))"
     if mode == "factory":
         return "(Some (MkPz (Some (PhNumbered %s)) []))" % cstr(":p")
+    if mode == "qfactory":
+        return "(Some (MkPz (Some (PhConst %s)) []))" % cstr("?")
     raise ValueError(mode)
 
 
@@ -64,6 +66,8 @@ def impl_render(obj, ctx, mode):
         pzr = Parameterizer()
     elif mode == "factory":
         pzr = Parameterizer(placeholder_factory=lambda i: ":p%d" % i)
+    elif mode == "qfactory":
+        pzr = Parameterizer(placeholder_factory=lambda i: "?")
     c = ctx.copy(parameterizer=pzr) if pzr is not None else ctx
     try:
         sql = obj.get_sql(c)
